@@ -151,13 +151,13 @@ def enforced (a : Action) (ps : List Policy) : List Policy :=
   ps.filter fun p => p.action == a && !p.dryRun
 
 /-- The statement's sentence for the policies that apply. `true` = admitted. -/
-def decide (ps : List Policy) (req : Request) : Bool :=
+def decision (ps : List Policy) (req : Request) : Bool :=
   if (enforced .deny ps).any (policyMatches · req) then false
   else if (enforced .allow ps).isEmpty then true
   else (enforced .allow ps).any (policyMatches · req)
 
 /-- The decision the policy semantics define for a request to workload `w`. -/
 def specDecision (w : Workload) (ps : List Policy) (req : Request) : Bool :=
-  decide (ps.filter (applies w)) req
+  decision (ps.filter (applies w)) req
 
 end IstioModel.C08
